@@ -994,6 +994,196 @@ def model_zero(ctx, kinds=("bulk", "grain boundaries"), n_hist=1, beta_type=1, s
                   ctx.implies(dg > 0, ctx.any([ctx.eq(sc(Y.Rnuc[0, i]), 0.0), ctx.le(sc(Y.Rcrit[0, i]), sc(Y.Rnuc[0, i]))])))
 
 
+# =========================================================================== 6b. failed impingement calculation, first record
+class ThermFault(Therm):
+    """backend whose impingementFactor fails (returns None: no equilibrium, no earlier value) for the calls selected by
+    symbolic fault bits"""
+    numElements = 3
+
+    def __init__(self, ctx, faults):
+        super().__init__(ctx); self.faults = list(faults); self.calls = 0
+
+    def impingementFactor(self, x, T, precPhase=None, removeCache=False, searchDir=None):
+        j = self.calls; self.calls += 1
+        if j < len(self.faults) and bool(self.faults[j]):
+            return None
+        return super().impingementFactor(x, T, precPhase, removeCache, searchDir)
+
+    def getDrivingForce(self, x, T, precPhase=None, removeCache=False):
+        x = np.atleast_2d(x); T = list(np.atleast_1d(T))
+        dg = np.zeros(len(T)); xb = np.zeros((len(T), x.shape[1]))
+        for i in range(len(T)):
+            dg[i] = self.ctx.uf("chemDG_%s" % precPhase, *list(x[i]), T[i], rng=(0.5, 3.0))
+            for e in range(x.shape[1]):
+                v = self._pos("xNuc%d_%s" % (e, precPhase), *list(x[i]), T[i], rng=(0.2, 0.4)); self.ctx.assume(v < 1)
+                xb[i, e] = v
+        return dg, xb
+
+
+def beta_fault(ctx, site="bulk", n=2):
+    """betaMulti when the backend's impingementFactor fails (None) for the points selected by symbolic fault bits: the
+    impingement rate of a failed point is 0, nothing is non-finite, the other points keep their value"""
+    p, gamma, k = mk_prec(ctx, site, sym_k=False)
+    matrix = mk_matrix(ctx)
+    faults = [ctx.boolean("fault%d" % i) for i in range(n)]
+    therm = ThermFault(ctx, faults)
+    dG = ctx.reals("dG", n, (0.5, 3.0)); T = ctx.reals("T", n, (1e22, 1e23)); x = ctx.reals("x", (n, 2), (0.01, 0.3))
+    for i in range(n):
+        ctx.assume(dG[i] > 0); ctx.assume(T[i] > 0)
+        for e in range(2):
+            ctx.assume(x[i, e] > 0); ctx.assume(x[i, e] < 1)
+    R, G = NR.nucleationBarrier(dG, p)
+    name = "failed impingement calculation: impingement rate 0, nothing non-finite"
+    try:
+        beta = NR.betaMulti(therm, x, T, R, matrix, p)
+    except (_core.VkError, TypeError) as e:
+        # the real code put None into a numeric array (NaN on plain numpy)
+        ctx.prove(name, False)
+        return
+    ctx.observe("beta", beta)
+    fl = [bool(f) for f in faults]
+    finite = True
+    if ctx.mode == "concrete":
+        finite = bool(np.all(np.isfinite(np.asarray(beta, dtype=float))))
+    ctx.prove(name, ctx.all([finite] + [ctx.eq(beta[i], 0.0) for i in range(n) if fl[i]]))
+    # the points whose calculation succeeded: the value a fault-free backend gives for that point alone
+    ok = Therm(ctx); ok.numElements = 3
+    for i in range(n):
+        if not fl[i]:
+            ref = sc(NR.betaMulti(ok, x[i], T[i], R[i], matrix, p))
+            ctx.prove("failed impingement calculation: other points unaffected", ctx.all([ctx.eq(beta[i], ref), ctx.le(0.0, beta[i])]))
+
+
+def model_fault(ctx, kinds=("bulk", "grain boundaries")):
+    """model step (real _calcNucleationRate, multicomponent branch) with a backend whose impingementFactor fails for the
+    phases selected by symbolic fault bits: such a phase is recorded with impingement 0 and nucleation rate 0 (nothing
+    non-finite in the record); the other phases are recorded with rate >= 0"""
+    P = len(kinds)
+    phases = ["P%d" % i for i in range(P)]
+    m = PrecipitateModel(phases=phases, elements=["A", "B"])
+    faults = [ctx.boolean("fault%d" % i) for i in range(P)]
+    m.therm = ThermFault(ctx, faults); m.removeCache = False
+    m.matrixParameters.volume.setVolume(pos(ctx, "a", (0.5, 1.5)), "a", 4)
+    m.matrixParameters.theta = pos(ctx, "theta", (1.0, 13.0))
+    T = pos(ctx, "T", (1e22, 1e23))
+    m.temperatureParameters.setIsothermalTemperature(T)
+    for i, kind in enumerate(kinds):
+        pp = m.precipitateParameters[i]
+        pp.nucleation.setNucleationType(kind)
+        g, k, vm, rmin = 0.25 + 0.1 * i, 0.3 + 0.2 * i, (1.0 + 0.5 * i) * 1e23, 0.1 + 0.05 * i
+        pp.gamma = g; pp.nucleation.gbEnergy = 2 * k * g; pp.volume.setVolume(vm, "VM", 4); pp.Rmin = rmin
+    avail = [ctx.real("sites%d" % i, (0.0, 50.0)) for i in range(P)]
+    for a in avail:
+        ctx.assume(a >= 0)
+    m._calcNucleationSites = lambda t, x, p: avail[p]
+    d = PrecipitationData(m.phases, m.elements, 1)
+    t0 = ctx.real("time0", (0.0, 0.5)); ctx.assume(t0 >= 0)
+    d.time = np.array([t0]); d.temperature = np.array([T])
+    m.pData = d
+    t = ctx.real("t", (1.0, 2.0)); ctx.assume(t > t0)
+    x0 = [pos(ctx, "x%d" % e, (0.01, 0.3)) for e in range(2)]
+    for v in x0:
+        ctx.assume(v < 1)
+    Y = PrecipitationData(m.phases, m.elements, 1)
+    Y.composition = np.array([x0]); Y.temperature = np.array([T]); Y.time = np.array([t])
+    for nm in ("nucRate", "Rnuc", "Rcrit", "Gcrit", "impingement"):
+        arr = ctx.reals("prev_" + nm, (1, P), (0.0, 2.0))
+        for i in range(P):
+            ctx.assume(arr[0, i] >= 0)
+        setattr(Y, nm, arr)
+    xpsd = [np.zeros(2) for _ in range(P)]
+    name = "failed impingement calculation: recorded impingement and nucleation rate are 0, nothing non-finite"
+    try:
+        PrecipitateBase._calcNucleationRate(m, t, xpsd, Y)
+    except (_core.VkError, TypeError):
+        ctx.prove(name, False)
+        return
+    fl = [bool(f) for f in faults]
+    rec = [sc(Y.nucRate[0, i]) for i in range(P)] + [sc(Y.impingement[0, i]) for i in range(P)] + [sc(Y.Rnuc[0, i]) for i in range(P)]
+    ctx.observe("rec", rec)
+    finite = True
+    if ctx.mode == "concrete":
+        finite = all(math.isfinite(float(v)) for v in rec)
+    ctx.prove(name, ctx.all([finite] + [ctx.all([ctx.eq(sc(Y.nucRate[0, i]), 0.0), ctx.eq(sc(Y.impingement[0, i]), 0.0)]) for i in range(P) if fl[i]]))
+    for i in range(P):
+        if not fl[i]:
+            ctx.prove("failed impingement calculation: other phases recorded with rate >= 0 and impingement > 0",
+                      ctx.all([ctx.le(0.0, sc(Y.nucRate[0, i])), ctx.lt(0.0, sc(Y.impingement[0, i]))]))
+
+
+class ThermBinary(ThermDG):
+    """binary backend for the real setup(): planar / curved interfacial compositions are uninterpreted functions of (T, gExtra)"""
+
+    def getInterfacialComposition(self, T, gExtra, precPhase=None):
+        if np.ndim(gExtra) == 0:
+            a = self._pos("xEqA_%s" % precPhase, T, gExtra, rng=(0.05, 0.3)); b = self._pos("xEqB_%s" % precPhase, T, gExtra, rng=(0.5, 0.9))
+            self.ctx.assume(a < b); self.ctx.assume(b < 1)
+            return a, b
+        g = list(np.atleast_1d(gExtra))
+        xa = np.zeros(len(g)); xb = np.zeros(len(g))
+        for i in range(len(g)):
+            a = self._pos("xEqA_%s" % precPhase, T, g[i], rng=(0.05, 0.3)); b = self._pos("xEqB_%s" % precPhase, T, g[i], rng=(0.5, 0.9))
+            self.ctx.assume(a < b); self.ctx.assume(b < 1)
+            xa[i] = a; xb[i] = b
+        return xa, xb
+
+
+def setup_beta2(ctx, kinds=("bulk",), bins=2):
+    """real PrecipitateModel.setup() of a binary model with setBetaBinary(2) (real _createLookupBinary, real
+    _calcNucleationRate; backend and the growth-rate step stubbed): the equilibrium compositions betaBinary2 receives for
+    step 0 are the ones setup stored in the first record, and the recorded impingement[0] is betaBinary2 of those"""
+    P = len(kinds)
+    phases = ["P%d" % i for i in range(P)]
+    m = PrecipitateModel(phases=phases, elements=["A"])
+    m.therm = ThermBinary(ctx, phases); m.removeCache = False
+    m.setBetaBinary(2)
+    m.setVolumeAlpha(pos(ctx, "a", (0.5, 1.5)), "a", 4)
+    m.setNucleationDensity(grainSize=1.0, aspectRatio=1.0, dislocationDensity=1.0, bulkN0=pos(ctx, "bulkN0", (10.0, 50.0)))
+    x0 = pos(ctx, "x", (0.01, 0.3)); ctx.assume(x0 < 1)
+    m.setInitialComposition(x0)
+    T = pos(ctx, "T", (1e22, 1e23))
+    m.setTemperature(T)
+    m.setGrainBoundaryEnergy(0.2)
+    m.setPBMParameters(cMin=0.5, cMax=1.5, bins=bins, minBins=1, maxBins=2 * bins, adaptive=False)
+    for i, kind in enumerate(kinds):
+        ph = phases[i]
+        m.setInterfacialEnergy(0.25 + 0.1 * i, phase=ph)
+        m.setVolumeBeta((1.0 + 0.5 * i) * 1e23, "VM", 4, phase=ph)
+        m.setNucleationSite(kind, phase=ph)
+        m.precipitateParameters[i].Rmin = 0.1
+    tstart = pos(ctx, "t0", (0.5, 2.0))
+    m.pData.time[0] = tstart
+    m._growthRate = lambda Y: ([np.zeros(m.PBM[p].bins + 1) for p in range(P)], Y)     # not the subject here
+    seen = []
+    real_b2 = NR.betaBinary2
+
+    def spy(therm, x, T_, Rcrit, matrix, precipitate, xEqAlpha=None, xEqBeta=None, removeCache=False):
+        seen.append((precipitate.phase, xEqAlpha, xEqBeta, Rcrit))
+        return real_b2(therm, x, T_, Rcrit, matrix, precipitate, xEqAlpha, xEqBeta, removeCache)
+    NR.betaBinary2 = spy
+    try:
+        m.setup()
+    finally:
+        NR.betaBinary2 = real_b2
+    ctx.prove("setup: model is set up and the first record holds the planar equilibrium compositions of the backend",
+              ctx.all([m._isSetup is True] + [ctx.lt(0.0, sc(m.pData.xEqAlpha[0, i, 0])) for i in range(P)] +
+                      [ctx.lt(sc(m.pData.xEqAlpha[0, i, 0]), sc(m.pData.xEqBeta[0, i, 0])) for i in range(P)]))
+    for (ph, xa, xb, Rc) in seen:
+        i = phases.index(ph)
+        xa = np.atleast_1d(xa); xb = np.atleast_1d(xb)
+        ctx.prove("setup, step 0: betaBinary2 receives the equilibrium compositions stored in the first record",
+                  ctx.all([np.shape(xa) == (1,), ctx.eq(xa[0], sc(m.pData.xEqAlpha[0, i, 0])), ctx.eq(xb[0], sc(m.pData.xEqBeta[0, i, 0]))]))
+        ref = sc(real_b2(m.therm, x0, T, Rc, m.matrixParameters, m.precipitateParameters[i], m.pData.xEqAlpha[0, i], m.pData.xEqBeta[0, i]))
+        ctx.observe("imp%d" % i, sc(m.pData.impingement[0, i])); ctx.observe("nuc%d" % i, sc(m.pData.nucRate[0, i]))
+        ctx.prove("setup, step 0: recorded impingement rate is betaBinary2 of the stored compositions", ctx.eq(sc(m.pData.impingement[0, i]), ref))
+        ctx.prove("setup, step 0: recorded impingement and nucleation rate >= 0", ctx.all([ctx.le(0.0, sc(m.pData.impingement[0, i])), ctx.le(0.0, sc(m.pData.nucRate[0, i]))]))
+    called = {ph for (ph, _, _, _) in seen}
+    for i in range(P):
+        dg = sc(m.pData.drivingForce[0, i])
+        ctx.prove("setup, step 0: a phase with positive driving force was evaluated with betaBinary2", ctx.implies(dg > 0, phases[i] in called))
+    safe(ctx, "setup, step 0 well defined", [m.pData.impingement[0], m.pData.nucRate[0]])
+
+
 # =========================================================================== 7. non-isothermal incubation time
 def noniso(ctx, N=2):
     """incubationTimeNonIsothermal on a symbolic history (N recorded steps): the returned incubation time is >= 0"""
@@ -1140,6 +1330,17 @@ HARNESSES = [
                                  {"kinds": ["grain edges", "grain boundaries"], "n_hist": 1, "beta_type": 1, "sym_params": False},
                                  {"kinds": ["grain corners"], "n_hist": 2, "beta_type": 1, "sym_params": False},
                                  {"kinds": ["grain boundaries"], "n_hist": 2, "beta_type": 1}, {"kinds": ["grain edges"], "n_hist": 1, "beta_type": 1}, {"kinds": ["bulk"], "n_hist": 2, "beta_type": 1}]}),
+    Harness("C14.beta_fault", beta_fault, functions=[NR.betaMulti, NR.nucleationBarrier], stubs=_ST + ["impingementFactor returns None for the calls selected by symbolic fault bits"], assumptions=_AR,
+            params={"quick": [{"site": "bulk", "n": 2}, {"site": "grain boundaries", "n": 2}], "thorough": [{"site": s, "n": 2} for s in SITES[:3]] + [{"site": "bulk", "n": 3}]}),
+    Harness("C14.model_fault", model_fault, functions=[PrecipitateBase._calcNucleationRate, NR.betaMulti, NR.volumetricDrivingForce], assumptions=_AR,
+            stubs=_ST + ["impingementFactor returns None for the phases selected by symbolic fault bits", "_calcNucleationSites of the model: symbolic value >= 0"],
+            bounds={"phases": "2, fixed material constants", "elements": 2},
+            params={"quick": [{"kinds": ["bulk", "grain boundaries"]}], "thorough": [{"kinds": ["bulk", "grain boundaries"]}, {"kinds": ["grain boundaries", "dislocations"]}]}),
+    Harness("C14.setup_beta2", setup_beta2, functions=[PrecipitateModel.setup, PrecipitateBase.setup, PrecipitateModel._createLookupBinary, PrecipitateBase._calcNucleationRate, NR.betaBinary2,
+                                                        PrecipitateModel._calcNucleationSites],
+            stubs=_ST + ["model._growthRate replaced by zeros (not the subject)", "NucleationRate.betaBinary2 wrapped by a recorder that calls the real function"],
+            assumptions=["start time of the first record > 0 (at t = 0 the incubation factor is exp(-tau/0))", "fixed material constants, grid of `bins` classes; T, composition, lattice parameter, bulkN0 symbolic"],
+            params={"quick": [{"kinds": ["bulk"], "bins": 2}], "thorough": [{"kinds": ["bulk", "grain boundaries"], "bins": 2}, {"kinds": ["dislocations"], "bins": 3}]}),
     Harness("C14.model_beta2", model_zero, functions=[PrecipitateBase._calcNucleationRate, NR.betaBinary2], stubs=_ST, assumptions=_AR,
             doc="the same model-level step with the second binary impingement formula (setBetaBinary(2)): the step completes and records a rate >= 0",
             params={"quick": [{"kinds": ["dislocations"], "n_hist": 2, "beta_type": 2}], "thorough": [{"kinds": ["bulk", "grain boundaries"], "n_hist": 1, "beta_type": 2, "sym_params": False}, {"kinds": ["grain boundaries"], "n_hist": 2, "beta_type": 2}]}),
